@@ -26,7 +26,6 @@ import logging
 from collections.abc import Iterable
 from collections.abc import Iterator
 from collections.abc import Mapping
-from contextlib import contextmanager
 from copy import copy
 from copy import deepcopy
 from os import PathLike
@@ -323,8 +322,10 @@ class JSONGrammar(BaseGrammar):
         """
         self.__schema_builder.add_schema(schema, not merge)
         self.__init_dependencies()
-        self._required_names |= self.__schema_builder.required
+        # Do not use the required names of the schema builder:
+        # it intersects them with the ones from the previous updates.
         self.__schema_builder.required.clear()
+        self._required_names |= set(schema.get("required", ()))
 
     def to_file(self, path: Path | str = "") -> None:
         """Write the grammar ,schema to a json file.
@@ -335,8 +336,7 @@ class JSONGrammar(BaseGrammar):
                 write to a file named after the grammar and with .json extension.
         """
         path = Path(self.name).with_suffix(".json") if not path else Path(path)
-        with self.__sync_required_names():
-            path.write_text(self.__schema_builder.to_json(indent=2), encoding="utf-8")
+        path.write_text(self.to_json(indent=2), encoding="utf-8")
 
     def to_json(self, *args: Any, **kwargs: Any) -> str:
         """Return the JSON representation of the grammar schema.
@@ -348,29 +348,28 @@ class JSONGrammar(BaseGrammar):
         Returns:
             The JSON representation of the schema.
         """
-        with self.__sync_required_names():
-            return cast("str", self.__schema_builder.to_json(*args, **kwargs))
-
-    @contextmanager
-    def __sync_required_names(self) -> Iterator[None]:
-        """Synchronize the required names while processing the schema builder."""
-        self.__schema_builder.required.update(self._required_names)
-        yield
-        self.__schema_builder.required.clear()
+        return json.dumps(self.schema, *args, **kwargs)
 
     @property
     def schema(self) -> Schema:
         """The dictionary representation of the schema."""
         if not self.__schema:
-            with self.__sync_required_names():
-                self.__schema = self.__schema_builder.to_schema()
+            self.__schema = self.__schema_builder.to_schema()
+        # The required names are handled by the base class,
+        # the cached schema shall always reflect the current ones.
+        if self._required_names:
+            self.__schema["required"] = sorted(self._required_names)
+        else:
+            self.__schema.pop("required", None)
         return self.__schema
 
     def _create_validator(self) -> None:
         """Create the schema validator."""
-        self.schema.pop("id", None)
-        self.schema.pop("required", None)
-        self.__validator = compile_schema(self.schema)
+        # Do not alter the cached schema.
+        schema = dict(self.schema)
+        schema.pop("id", None)
+        schema.pop("required", None)
+        self.__validator = compile_schema(schema)
 
     def set_descriptions(self, descriptions: Mapping[str, str]) -> None:
         """Set the properties descriptions.
